@@ -120,3 +120,67 @@ Definition audited_type_checks : list (string * string * string) := [("utils.py"
   ("modules/math.py", "build_tbl", "Real")].
 Theorem function_classes_audited : GenKinds.gen_function_classes = audited_function_classes. Proof. reflexivity. Qed.
 Theorem type_checks_audited : GenKinds.gen_type_checks = audited_type_checks. Proof. reflexivity. Qed.
+(* ... and every arity / arity list handed to check_arity / check_min_arity / check_max_arity / match_arguments / match_defaults, in source order:
+   the arities the model's built-ins check were written against this list *)
+Definition audited_arity_checks : list (string * string * string) := [("utils.py", "match_arguments", "check_arity arities");
+  ("utils.py", "match_arguments", "check_min_arity min_arity");
+  ("utils.py", "match_arguments", "check_max_arity max_arity");
+  ("utils.py", "match_defaults", "check_max_arity arity");
+  ("utils.py", "match_defaults", "check_min_arity arity - len(defaults)");
+  ("interpret.py", "proc_functional._proc_boolean", "check_arity 2");
+  ("interpret.py", "proc_functional._proc_dict", "check_arity 1");
+  ("interpret.py", "proc_functional._proc_complex", "match_arguments 1");
+  ("interpret.py", "proc_functional._proc_seq", "match_arguments 1");
+  ("builtins/arithmetics.py", "build_tbl._multiply", "check_min_arity 1");
+  ("builtins/arithmetics.py", "build_tbl._add", "check_min_arity 1");
+  ("builtins/arithmetics.py", "build_tbl._exponentiate", "match_arguments [2, 3]");
+  ("builtins/arithmetics.py", "build_tbl._integer_division", "match_arguments 2");
+  ("builtins/arithmetics.py", "build_tbl._remainder", "match_arguments 2");
+  ("builtins/constructors.py", "_parse_str_to_number", "match_defaults 2");
+  ("builtins/constructors.py", "build_tbl._string", "match_arguments [0, 1]");
+  ("builtins/constructors.py", "build_tbl._integer", "match_arguments [1, 2]");
+  ("builtins/constructors.py", "build_tbl._integer", "check_arity 1");
+  ("builtins/constructors.py", "build_tbl._float", "match_arguments [1, 2]");
+  ("builtins/constructors.py", "build_tbl._float", "check_arity 1");
+  ("builtins/constructors.py", "build_tbl._float", "match_defaults 2");
+  ("builtins/constructors.py", "build_tbl._complex", "match_arguments [1, 2]");
+  ("builtins/constructors.py", "build_tbl._complex", "match_defaults 2");
+  ("builtins/constructors.py", "build_tbl._complex", "check_arity 1");
+  ("builtins/constructors.py", "build_tbl._nil", "check_arity 0");
+  ("builtins/control.py", "build_tbl._throw", "check_arity 1");
+  ("builtins/control.py", "build_tbl._try", "check_arity 2");
+  ("builtins/functional.py", "Pipe.__call__", "check_min_arity 1");
+  ("builtins/functional.py", "Collect.__call__", "match_arguments 1");
+  ("builtins/functional.py", "build_tbl._collect", "check_arity 1");
+  ("builtins/functional.py", "build_tbl._spread", "check_arity 1");
+  ("builtins/io.py", "File.__call__", "check_min_arity 1");
+  ("builtins/io.py", "File._close", "check_arity 1");
+  ("builtins/io.py", "File._read", "check_arity 2");
+  ("builtins/io.py", "File._write", "check_arity 2");
+  ("builtins/io.py", "File._seek_or_tell", "check_max_arity 3");
+  ("builtins/io.py", "_input", "check_arity 0");
+  ("builtins/io.py", "_print", "check_arity 1");
+  ("builtins/io.py", "_return", "check_arity 1");
+  ("builtins/io.py", "_file", "check_arity 2");
+  ("builtins/io.py", "build_tbl._bind", "check_arity [2, 3]");
+  ("builtins/logic.py", "build_tbl._negate", "match_arguments 1");
+  ("builtins/logic.py", "build_tbl._less_than", "match_arguments 2");
+  ("builtins/logic.py", "build_tbl._true", "check_arity 0");
+  ("builtins/logic.py", "build_tbl._false", "check_arity 0");
+  ("builtins/module.py", "build_tbl._import", "check_min_arity 1");
+  ("builtins/module.py", "build_tbl._import", "check_arity 1");
+  ("builtins/sequence.py", "build_tbl._len", "match_arguments 1");
+  ("builtins/sequence.py", "build_tbl._slice", "check_arity [2, 3, 4]");
+  ("builtins/sequence.py", "build_tbl._slice", "match_defaults 3");
+  ("builtins/sequence.py", "build_tbl._map", "check_arity 2");
+  ("builtins/sequence.py", "build_tbl._filter", "check_arity 2");
+  ("builtins/sequence.py", "build_tbl._fold", "check_arity [2, 3]");
+  ("builtins/string.py", "build_tbl._split", "match_arguments [1, 2]");
+  ("builtins/string.py", "build_tbl._split", "match_defaults 2");
+  ("builtins/string.py", "build_tbl._split", "match_defaults 2");
+  ("builtins/string.py", "build_tbl._join", "check_arity [1, 2]");
+  ("modules/bitwise.py", "build_tbl._wrap._proc", "match_arguments arity");
+  ("modules/byte.py", "build_tbl._codec", "check_arity [2, 3]");
+  ("modules/math.py", "build_tbl._wrap._proc", "match_arguments arity");
+  ("modules/math.py", "build_tbl._wrap2._proc", "match_arguments 1")].
+Theorem arity_checks_audited : GenKinds.gen_arity_checks = audited_arity_checks. Proof. reflexivity. Qed.
